@@ -14,7 +14,7 @@ GEN = ['gen_policy_base.json', 'gen_policy_open2n2.json', 'gen_policy_open2n2_m1
        'gen_index_base.json', 'gen_index_open2n2.json', 'gen_index_open8.json', 'gen_buckets.json', 'gen_hashset_grow.json',
        'gen_c13_open2n2.json', 'gen_c13_open2n2_ops.json', 'gen_c13_openn1.json', 'gen_c13_openn1_ops.json',
        'gen_c12_base.json', 'gen_c12_limp4.json', 'gen_c12_limp4_add.json', 'gen_c12_one.json',
-       'gen_hashset_move.json', 'gen_hashset_find.json', 'gen_p4s4.json', 'gen_p4s3.json', 'gen_p4s2.json', 'gen_p4s1.json']
+       'gen_hashset_move.json', 'gen_hashset_find.json', 'gen_hashset_clear.json', 'gen_p4s4.json', 'gen_p4s3.json', 'gen_p4s2.json', 'gen_p4s1.json']
 MAP_KINDS = ('L4', 'L1', 'O3', 'P3', 'N1')
 
 
